@@ -85,6 +85,37 @@ def race(sid, rnd, nx, offset):
     return s.done()
 
 
+def teardown(sid, api, delay):
+    """the answer arrives after the expiry, while the timeout reset is still tearing the environment down (an extension
+    is there, so the runtime - which ignores SIGTERM - gets a grace period and is still alive): the caller gets the
+    timeout all the same, the reset completes, the next invocation is served by new processes"""
+    subs = {"e1": ["INVOKE", "SHUTDOWN"]}
+    s = Scn(sid, ext=["e1"], timeout_ms=400, opWaitMs=8000, onTerm={"runtime": "ignore", "e1": "ignore"})
+    s.meta(family="teardown", api=api, delay=delay)
+    tags = s.boot(subs)
+    it = s.invoke(size=4, seed=1)
+    s.wait(tags["rt"])
+    s.wait(tags["ext:e1"])
+    te = s.poll("ext:e1")
+    s.until_ev("Terminate", n=1)
+    s.sleep(delay)
+    kw = {"errType": "Function.Late"} if api == "error" else {}
+    s.call("rt", api, id="current", body="during-teardown", **kw)
+    s.wait(te)                  # SHUTDOWN
+    s.exit("ext:e1", code=0)
+    s.wait(it)
+    s.recover(subs)
+    return s.done()
+
+
+def teardown_scenarios(ctx):
+    out = []
+    for i, (api, delay) in enumerate([("response", 20), ("error", 150)] if ctx.quick else
+                                     [(a, d) for a in ("response", "error") for d in (0, 20, 150, 400)]):
+        out.append(teardown("c05t-%02d" % i, api, delay))
+    return out
+
+
 def scenarios(ctx):
     rnd = random.Random(ctx.seed * 389 + 5)
     out = []
@@ -117,6 +148,7 @@ def run(ctx):
     ctx.assumptions += sc.ASSUME + ["race sweep: offsets of the response relative to the expiry are sampled, not enumerated"]
     sc.run_families(ctx, scenarios(ctx), "stall")
     sc.run_families(ctx, race_scenarios(ctx), "race")
+    sc.run_families(ctx, teardown_scenarios(ctx), "teardown")
     # timeouts seen through the HTTP front end: the caller gets the timeout answer only (also when the runtime had
     # already answered but not polled again), within the bound, and the next request is served by a new environment
     import random
